@@ -365,6 +365,45 @@ PROPS["C10"] = dict(
                 "floating-point accuracy statements of the property.",
     limit_quick=200, limit_thorough=5000)
 
-CLAIMED = {"C10", "C01", "C03", "C04", "C20", "C02", "C05", "C06", "C16", "C18", "C11", "C14", "C17", "C07", "C15", "C08", "C09", "C19"}
+PROPS["C12"] = dict(
+    level="other", needs_ext=True,
+    technique="contract-based deductive verification of what the VC generator reaches (the exact distance filter gcirc in htmc.cc "
+              "through the C front end over the real C++ source, and the Python glue that establishes the C++ matcher's "
+              "memory-safety preconditions) plus labelled bounded brute-force oracles for the C++ HTM triangle search, which is "
+              "outside its reach",
+    level_text="Proved (reals): htmc.cc gcirc returns 0 for identical points, a value in [0,180] degrees, and the angle whose sine "
+               "and cosine are the spherical sine/cosine-rule expressions (atan2 form); Matcher.match raises ValueError exactly "
+               "when ra/dec sizes differ or the radius is neither one value nor one per point, so the C++ matcher is only "
+               "called with one declination per right ascension and a readable radius for every point, and never writes the "
+               "caller's arrays. Bounded: all-pairs brute force in long double for uniform / clustered (1e-4..30 deg) / polar / "
+               "seam / octant-boundary sets with duplicates and self-matching, radii 0, 1e-6 .. 180 degrees and per-point radii, "
+               "depths 1..13, maxmatch in {-1,0,1,2,3,1000}, byte-swapped and strided inputs: exact pair set, once each, grouped "
+               "and sorted, reported separation to 1e-9 degree, k closest, file == memory, Matcher == HTM.match, depth independence.",
+    level_note="The triangle search (SpatialDomain / SpatialConvex / SpatialIndex, std::map of leaf members, std::sort, maxmatch "
+               "truncation) is C++ with templates and STL containers: not under contract, bounded only - hence level 'other'. "
+               "libm range axioms for sin / cos / sqrt / atan2 are assumed.",
+    explanation="Mixed, reported separately: obligations discharged for the distance filter and the Python glue; the statement "
+                "itself is a bounded brute-force oracle.",
+    limit_quick=600, limit_thorough=20000)
+
+PROPS["C13"] = dict(
+    level="other", needs_ext=True,
+    technique="contract-based deductive verification of what the VC generator reaches (gcirc in htmc.cc, the Python glue of "
+              "lookup_id and the logarithmic bin edges) plus labelled bounded brute-force oracles for the C++ id descent, circle "
+              "covers and pair counter, which are outside its reach",
+    level_text="Proved: lookup_id raises ValueError exactly when ra and dec differ in size, hands the C++ three arrays of one length "
+               "and returns one id per position without writing the caller's arrays; log_bins returns nbin contiguous bins whose "
+               "edges are equally spaced in log10 between rmin and rmax; gcirc as under C12. Bounded: ids in [8*4^d, 16*4^d) and "
+               "child-of-parent for depths 0..20 with scalar == array (uniform, poles, seam, octant boundaries, ra multiples of "
+               "90); circle covers at depths 1..12 and radii 1e-4..90 deg against probe points inside / on the rim / outside; "
+               "log-binned pair counts against brute force with no scale, a scalar scale and a per-point scale, and with "
+               "precomputed ids / reverse indices / id range.",
+    level_note="SpatialIndex::idByName / lookupID, SpatialDomain::intersect and HTMC::cbincount are C++: bounded only - hence level "
+               "'other'. The reverse-index hand-off from stat.histogram is proved under C05 (partition contract).",
+    explanation="Mixed, reported separately: obligations discharged for the Python glue and the distance function; the statement "
+                "itself is a bounded brute-force oracle.",
+    limit_quick=600, limit_thorough=20000)
+
+CLAIMED = {"C12", "C13", "C10", "C01", "C03", "C04", "C20", "C02", "C05", "C06", "C16", "C18", "C11", "C14", "C17", "C07", "C15", "C08", "C09", "C19"}
 NOT_APPLICABLE = {("C%02d" % k): "check not built yet (implementation in progress; plan in DESIGN.md section 8)"
                   for k in range(1, 21) if ("C%02d" % k) not in CLAIMED}
